@@ -127,6 +127,24 @@ def handle (j : Json) : Except String Json := do
     let cols ← jList (jList jRat) (← field j "cols")
     let internal := mapMultiPoint strategy
     return Json.mkObj [("ok", true), ("internal", internal), ("lie", ofRats (cols.map (lieInternal internal)))]
+  | "nsmallest" =>
+    -- one-shot batches: are the positions `idx` a selection of the `n` smallest of `values`?  (theorem C05_nsmallest_checker;
+    -- asked once with the acquisition values — L2: `np.argsort(values)[:n]` — and once with the negated scores — L3, C05_topk_batch)
+    let values ← jList jRat (← field j "values")
+    let idx ← jList jNat (← field j "idx")
+    let n ← jNat (← field j "n")
+    return Json.mkObj [("ok", true), ("check", isNSmallestB values idx n),
+      ("first", optJ (fun (k : Nat) => Json.num (JsonNumber.fromNat k)) (boltzmannFirst values))]
+  | "prior" =>
+    -- update_prior: the mask `y <= quantile(y, 1 - p)` of the model, and the verified direction check of an observed selection
+    let y ← jList jRat (← field j "y")
+    let p ← jRat (← field j "p")
+    let q := cboPriorQuantile p
+    let sel ← jList jBool (fieldD j "sel" (Json.arr #[]))
+    let mask := priorMask q y
+    return Json.mkObj [("ok", true), ("q", ofRat q), ("quantile", optJ ofRat (quantileLin y q)),
+      ("mask", optJ (fun (m : List Bool) => Json.arr (m.map (fun b => Json.bool b)).toArray) mask),
+      ("sel_ok", checkPriorSel y sel)]
   | _ => throw s!"unknown op {op}"
 
 def main : IO Unit := serveFn handle
